@@ -675,6 +675,15 @@ def fam_builtins(tier, seed):
         for i, ch in enumerate(members[b]):
             out.append(Witness("builtins_%s_lit%d" % (b, i), "builtins", Def(top=rules(
                 plus(B(b)), cat(C(ch), C("#")), C("#")))))
+    # two rules whose built-in classes overlap in one state and lead to different continuations: the
+    # pieces of the merged range map must keep their own targets (in both rule orders)
+    overlaps = [("ascii_alphanumeric", "ascii_hexdigit"), ("alphabetic", "uppercase"), ("alphanumeric", "numeric"),
+                ("ascii_graphic", "ascii_punctuation"), ("XID_Continue", "XID_Start")]
+    for big, small in overlaps:
+        out.append(Witness("builtins_overlap_%s_%s" % (big, small), "builtins", Def(top=rules(
+            plus(B(big)), cat(B(small), C("!"))))))
+        out.append(Witness("builtins_overlap_%s_%s_rev" % (big, small), "builtins", Def(top=rules(
+            cat(B(small), C("!")), plus(B(big))))))
     # built-ins inside class expressions: as operands of `#` and `|`, nested on either side
     lo, al, asc, dig, alnum, hexd = (B("ascii_lowercase"), B("alphabetic"), B("ascii"), B("ascii_digit"),
                                      B("ascii_alphanumeric"), B("ascii_hexdigit"))
@@ -934,6 +943,14 @@ def fam_illformed(tier, seed):
          "unbound variable in a later rule set")
     pair("unbound_in_ctx", lx("    'a' > $x = 1,"), lx("    let x = 'b';\n    'a' > $x = 1,"),
          "unbound variable in a right context")
+    pair("unbound_in_ctx_bound_in_earlier_rule_set",
+         lx("    rule Init { let end = ';'; 'a' > $end = 1, }\n    rule R { 'b' > $end = 2, }"),
+         lx("    rule Init { let end = ';'; 'a' > $end = 1, }\n    rule R { let end = ';'; 'b' > $end = 2, }"),
+         "a right context uses a variable that only an earlier rule set binds (same context text)")
+    pair("unbound_in_ctx_bound_in_earlier_rule_set_2",
+         lx("    rule Init { let e = ' ' | $; \"ab\" > ($e | 'x') = 1, }\n    rule R { \"cd\" > ($e | 'x') = 2, 'c' = 3, }"),
+         lx("    let e = ' ' | $;\n    rule Init { \"ab\" > ($e | 'x') = 1, }\n    rule R { \"cd\" > ($e | 'x') = 2, 'c' = 3, }"),
+         "the same, inside a larger context expression")
     pair("unbound_in_diff", lx("    ['a'-'z'] # $x = 1,"), lx("    let x = 'b';\n    ['a'-'z'] # $x = 1,"),
          "unbound variable inside #")
     pair("var_twice", lx("    let x = 'a';\n    let x = 'b';\n    $x = 1,"),
